@@ -14,9 +14,17 @@ def main():
     sys.setrecursionlimit(10000)
     import logging
     logging.disable(logging.CRITICAL)   # formatting/logging is not the subject of any property
-    from symx import harness
-    mod = importlib.import_module("props.%s" % args.prop)
-    rc = harness.run_check(args.prop, mod, args.tier, seed)
+    try:
+        from symx import harness
+        mod = importlib.import_module("props.%s" % args.prop)
+        rc = harness.run_check(args.prop, mod, args.tier, seed)
+    except SystemExit:
+        raise
+    except BaseException:          # a crash of the machinery is never a verdict: reserved harness-error code, no VIOLATION line
+        import traceback
+        traceback.print_exc()
+        print("INCONCLUSIVE %s: the checking machinery itself failed (see traceback)" % args.prop)
+        rc = 3
     sys.stdout.flush()
     sys.exit(rc)
 
